@@ -871,6 +871,8 @@ class Exec:
     def exec_stmt(self, s, st):
         if self.is_opaque_stmt(s):
             self.skipped_opaque = getattr(self, "skipped_opaque", 0) + 1
+            self.trusted_used.add(f"{self.qualname}: statements that only update the opaque bookkeeping variables {sorted(self.c.get('opaque', ()))} are skipped "
+                                  "(exceptions they could raise are not covered); a test on them is treated as non-deterministic")
             return [Outcome("normal", st)]
         tail = self.c.get("opaque_tail", ())
         if tail and isinstance(s, ast.Assign) and len(s.targets) == 1 and isinstance(s.targets[0], ast.Name) and s.targets[0].id in tail:
@@ -891,6 +893,8 @@ class Exec:
                     return outs + self.drain()
                 except Unsupported:
                     self.pending = keep
+                    self.trusted_used.add(f"statement at line {s.lineno} of {self.qualname} (`{s.targets[0].id} = ...`, outside the modelled subset) is skipped: "
+                                          "it reads and writes only the listed opaque names; exceptions it could raise are not covered")
                     st.env[s.targets[0].id] = ("opaque", s.targets[0].id)
                     self.skipped_opaque = getattr(self, "skipped_opaque", 0) + 1
                     return [Outcome("normal", st)]
@@ -1339,6 +1343,8 @@ class Exec:
         a = st.clone()
         wipe(a)
         self.havoc_loops_run = getattr(self, "havoc_loops_run", 0) + 1
+        self.trusted_used.add(f"loop {n} of {self.qualname} runs over an arbitrary (opaque) collection: its body is verified from an arbitrary state of the variables "
+                              "it assigns; subscripts of opaque collections are not checked for exceptions")
         return [Outcome("normal", a)] + outs
 
     def st_For(self, s, st):
@@ -1583,6 +1589,8 @@ class Exec:
                 raise Unsupported(f"the skipped prefix assigns {nme}, which the sidecar does not declare (sidecar no longer binds)")
             st.env[nme] = ("opaque", nme) if shape == "opaque" else shapes.fresh_of(self, st, shape, nme)
         self.skipped_prefix = idx
+        self.trusted_used.add(f"PARTIAL contract {self.qualname}: execution starts at the first assignment to `{sa['assign']}` (statement {idx + 1} of the body); "
+                              "the locals assigned before are arbitrary values; exceptions, non-termination and in-place effects of the skipped prefix are not covered")
         return body[idx:]
 
     def run(self):
